@@ -128,6 +128,28 @@ func (x *executor) callFunction(m *machine, fr *frame, in ssa.Instruction, res s
 		return
 	}
 	if fn.Parent() != nil {
+		if cfc := x.specs.funcs[key]; cfc != nil && cfc.summary {
+			// closure with a summary contract: the captured variables are extra (by-reference) parameters
+			var names []string
+			for _, p := range fn.Params {
+				names = append(names, p.Name())
+			}
+			all := append([]Val{}, args...)
+			for i, fv := range fn.FreeVars {
+				names = append(names, fv.Name())
+				b := bindings[i]
+				if b.ptr == nil {
+					panic(unsupported("closure binding of " + key + " is not a pointer"))
+				}
+				cv := x.c.load(m.st, b.ptr)
+				if cv.t == nil && cv.fn == nil {
+					panic(unsupported("captured variable " + fv.Name() + " of " + key + " holds an executor-level value"))
+				}
+				all = append(all, cv)
+			}
+			x.applyContract(m, fr, in, res, cfc, key, names, all, fn.Signature, fn == x.fn)
+			return
+		}
 		x.inline(m, fr, res, fn, key, bindings, args)
 		return
 	}
@@ -537,6 +559,13 @@ func (x *executor) copyRange(st *state, et types.Type, dst, dlo, src, slo, n *T)
 	dbase := c.arith(token.ADD, c.slOff(dst), dlo, intT, nil)
 	inR := mkAnd(c.cmp(token.LEQ, dbase, p, intT), c.cmp(token.LSS, p, c.arith(token.ADD, dbase, n, intT, nil), intT))
 	st.assume(app(fmt.Sprintf("forall ((%s %s))", p.op, p.sort), "Bool", mkImp(mkNot(inR), mkEq(app("select", es, na, p), app("select", es, dstArr, p)))))
+	// the copied range once more over the absolute index (trigger without arithmetic): na[p] == src[p - dbase + sbase]
+	qcounter++
+	p2 := atom(fmt.Sprintf("p!%d", qcounter), c.intSort())
+	inR2 := mkAnd(c.cmp(token.LEQ, dbase, p2, intT), c.cmp(token.LSS, p2, c.arith(token.ADD, dbase, n, intT, nil), intT))
+	sidx := c.ix(c.slOff(src), c.arith(token.ADD, slo, c.arith(token.SUB, p2, dbase, intT, nil), intT, nil))
+	body2 := mkImp(inR2, mkEq(app("select", es, na, p2), app("select", es, srcArr, sidx)))
+	st.assume(app(fmt.Sprintf("forall ((%s %s))", p2.op, p2.sort), "Bool", &T{op: "!", args: []*T{body2, atom(":pattern ((select "+na.String()+" "+p2.op+"))", "Attr")}, sort: "Bool"}))
 	c.setArr(st, et, mkStore(a, c.slRef(dst), na))
 }
 
